@@ -30,7 +30,9 @@ RULE_SUFFIX = (
     "configured by constructor | set_params | attribute assignment | clone; the numbers arrive in C | Fortran | strided | "
     "read-only | list | negative-stride | non-native-byte-order containers (integer-typed where whole-number data are drawn); fitted through fit or fit_transform "
     "where both exist; used afterwards as the same object | its deep copy | its unpickled copy; the caller's buffers may be "
-    "overwritten after fit."
+    "overwritten after fit. Every check: one case in four runs with scikit-learn's global working_memory lowered to 1 KiB; "
+    "estimators with a past were, every other time, fitted on a sibling of the judged data (same shape, column means and norms); "
+    "the selectors' fits receive, for every other data set, the very array objects of the estimator's previous fit refilled."
 )
 CONFIGURE = ("ctor", "ctor", "set_params", "setattr", "clone")
 CARRY = ("same", "same", "deepcopy", "pickle")
